@@ -248,7 +248,7 @@ func execC16(ctx *core.Ctx, c *c16Case) {
 				pend = append(pend, c16Pending{row: op.Row, exp: exp, key: key})
 				sinceBar++
 			}
-		case "upsert", "upsert_api", "delete":
+		case "upsert", "upsert_api", "delete", "reload":
 			if c.Mode != "sync" && !barrier() {
 				barrierBad = true
 				break
@@ -261,6 +261,28 @@ func execC16(ctx *core.Ctx, c *c16Case) {
 			case "upsert_api":
 				err, _ = c16Safe(func() error { return s.UpsertTable("meta", c16Copy(op.Row)) })
 				table.upsert(op.Row)
+			case "reload":
+				var rows []map[string]any
+				for _, k := range table.liveKeys() {
+					rows = append(rows, c16Copy(table.live[k].row))
+				}
+				if c.Mode != "sync" && c.barrier != nil {
+					rows = append(rows, c16Copy(c.barrier))
+				}
+				err, _ = c16Safe(func() error {
+					var nsrc *stream.MemoryTableSource
+					var e error
+					if c.ExplicitKF {
+						nsrc, e = s.RegisterTable("meta", rows, c.TableKeys...)
+					} else {
+						nsrc, e = s.RegisterTable("meta", rows)
+					}
+					if e == nil && nsrc != nil {
+						src = nsrc
+					}
+					return e
+				})
+				ctx.Count("seq.table_reloads", 1)
 			case "delete":
 				var k any = append([]any{}, op.Key...)
 				if len(op.Key) == 1 && opIdx%2 == 0 {
